@@ -105,6 +105,7 @@ from prompt_toolkit.layout.processors import (
     ReverseSearchProcessor,
     merge_processors,
 )
+from prompt_toolkit.layout.screen import Char
 from prompt_toolkit.layout.utils import explode_text_fragments
 from prompt_toolkit.lexers import DynamicLexer, Lexer
 from prompt_toolkit.output import ColorDepth, DummyOutput, Output
@@ -183,6 +184,16 @@ def _split_multiline_prompt(
         return result
 
     return has_before_fragments, before, first_input_line
+
+
+def _dumb_terminal_text(text: str) -> str:
+    """
+    Text as it should be sent to a dumb terminal: control characters are shown
+    the way the renderer shows them (caret or hex notation, see
+    `Char.display_mappings`), because here nothing else sanitizes them. Line
+    endings are kept.
+    """
+    return "".join(c if c == "\n" else Char.display_mappings.get(c, c) for c in text)
 
 
 class _RPrompt(Window):
@@ -1054,7 +1065,9 @@ class PromptSession(Generic[_T]):
         right before the cursor.
         """
         # Send prompt to output.
-        self.output.write(fragment_list_to_text(to_formatted_text(self.message)))
+        self.output.write(
+            _dumb_terminal_text(fragment_list_to_text(to_formatted_text(self.message)))
+        )
         self.output.flush()
 
         # Key bindings for the dumb prompt: mostly the same as the full prompt.
@@ -1074,7 +1087,11 @@ class PromptSession(Generic[_T]):
         )
 
         def on_text_changed(_: object) -> None:
-            self.output.write(self.default_buffer.document.text_before_cursor[-1:])
+            self.output.write(
+                _dumb_terminal_text(
+                    self.default_buffer.document.text_before_cursor[-1:]
+                )
+            )
             self.output.flush()
 
         self.default_buffer.on_text_changed += on_text_changed
